@@ -188,6 +188,75 @@ func expStr(e expectation) string {
 
 func nFrames(r *pairResult) int64 { return int64(len(r.Frames[0]) + len(r.Frames[1])) }
 
+// subF: one side's checker is the one a real secure service builds in its Init when the accepted list arrives through
+// the application's "config" component (every version 1..3 x every configured list containing it x both modes); the
+// other side is every configuration of sub-check (a); both directions; same reference as (a).
+func (w *world) subF(g *guards) {
+	c := w.c
+	var wired []sideCfg
+	for v := uint32(1); v <= 3; v++ {
+		for mask := 1; mask < 8; mask++ {
+			acc := []uint32{}
+			for b := 0; b < 3; b++ {
+				if mask&(1<<b) != 0 {
+					acc = append(acc, uint32(b+1))
+				}
+			}
+			has := false
+			for _, a := range acc {
+				has = has || a == v
+			}
+			if !has {
+				continue // the service refuses to start with a configured list that lacks its own version
+			}
+			for _, verify := range []bool{false, true} {
+				wired = append(wired, sideCfg{Version: v, Accept: acc, Verify: verify, ViaService: true})
+			}
+		}
+	}
+	c.Bound("f_service_wired_configurations", len(wired))
+	idx := -1
+	for _, wc := range wired {
+		for _, wiredOut := range []bool{true, false} {
+			plain := sideConfigs(acB, "in-client/9.8")
+			if !wiredOut {
+				plain = sideConfigs(acA, "out-client/1.2.3")
+			}
+			for _, pc := range plain {
+				idx++
+				if !w.mine(idx) {
+					continue
+				}
+				if c.TimeUp() {
+					g.capped = true
+					c.NotExhaustive("deadline reached in sub-check (f)")
+					return
+				}
+				ws := wc
+				var ps pairSpec
+				if wiredOut {
+					ws.Acct, ws.CV = acA, "out-client/1.2.3"
+					ps = pairSpec{Out: ws, In: pc}
+				} else {
+					ws.Acct, ws.CV = acB, "in-client/9.8"
+					ps = pairSpec{Out: pc, In: ws}
+				}
+				rc := rcase{Sub: "a", Pair: &ps, Note: "service-wired side"}
+				r := w.runPair(ps, rc)
+				c.Count("executions", 1)
+				c.Count("evaluations", 1)
+				c.Count("transitions", nFrames(r))
+				c.Count("f_cases", 1)
+				w.judgePair("f", ps, r, rc)
+				st := fmt.Sprintf("f|%s|%s|%s|%s", ps.Out, ps.In, errClass(r.Side[0]), errClass(r.Side[1]))
+				if c.Distinct("states", st) {
+					c.Distinct("distinct", fmt.Sprintf("f|%v|%s|%s", wiredOut, errClass(r.Side[0]), errClass(r.Side[1])))
+				}
+			}
+		}
+	}
+}
+
 func (w *world) subA(g *guards) {
 	c := w.c
 	outs, ins := sideConfigs(acA, "out-client/1.2.3"), sideConfigs(acB, "in-client/9.8")
